@@ -1,10 +1,12 @@
 import Driver.SafePtr
 import Driver.Sched
 import Driver.Guard
+import Driver.Dict
 
 def main (args : List String) : IO UInt32 := do
   match args with
   | ["safeptr"] => Driver.SafePtr.main; return 0
   | ["sched"] => Driver.Sched.main; return 0
   | ["guard"] => Driver.Guard.main; return 0
+  | ["dict"] => Driver.Dict.main; return 0
   | _ => IO.eprintln "usage: driver <area>"; return 2
